@@ -1325,6 +1325,40 @@ def quantum_executable(rng):
     return cirq_google.QuantumExecutable(circuit=c, measurement=cirq_google.BitstringsMeasurement(int(rng.integers(1, 999))), **kw)
 
 
+def google_misc(rng):
+    import cirq
+    import cirq_google
+    k = int(rng.integers(8))
+    if k == 0:
+        return cirq_google.AnalogDetuneCouplerOnly(length=pick(rng, [rsymbol(rng), 10, 12.5]), w=pick(rng, [10, 5.5]), g_0=int(rng.integers(1, 9)),
+                                                   g_max=int(rng.integers(10, 30)), g_ramp_exponent=pick(rng, [1.0, 2.0]),
+                                                   interpolate_coupling_cal=rbool(rng))
+    if k == 1:
+        return cirq_google.AnalogDetuneQubit(length=int(rng.integers(1, 30)), w=int(rng.integers(1, 9)),
+                                             target_freq=pick(rng, [None, 8, 6.5, rsymbol(rng)]), prev_freq=pick(rng, [None, 4, 5.5]),
+                                             neighbor_coupler_g_dict=pick(rng, [None, {"c_q0_0_q0_1": 5}]), linear_rise=rbool(rng))
+    if k == 2:
+        return pick(rng, [cirq_google.LZSResetViaResonator, cirq_google.MultilevelResetViaResonator])(num_qubits=int(rng.integers(1, 4)))
+    if k == 3:
+        return cirq_google.LeakageISWAP(phase_matched=rbool(rng))
+    if k == 4:
+        qs = line_qubits(rng, 2)
+        kw = {}
+        for nm in ("depol_probs", "bitflip_probs", "decay_probs"):
+            if rbool(rng):
+                kw[nm] = {q: rprob(rng) for q in qs if rbool(rng)} or {qs[0]: 0.125}
+        return cirq_google.experimental.noise_models.PerQubitDepolarizingWithDampedReadoutNoiseModel(**kw)
+    if k == 5:
+        return cirq_google.CalibrationLayer(calibration_type=pick(rng, ["xeb", "floquet"]), program=small_circuit(rng),
+                                            args={"type": pick(rng, ["full", "half"]), "samples": int(rng.integers(1, 500)), "w": rfloat(rng)})
+    if k == 6:
+        qs = qids_for(rng, (2,) * int(rng.integers(1, 3)))
+        return cirq.ProjectorString({q: int(rng.integers(0, 2)) for q in qs}, coefficient=pick(rng, [1, 0.5, 20.25, 1j, -2.5 + 0.5j]))
+    qs = line_qubits(rng, 2)
+    return cirq.ProjectorSum.from_projector_strings([cirq.ProjectorString({q: int(rng.integers(0, 2)) for q in qs if rbool(rng)} or {qs[0]: 1},
+                                                                          coefficient=pick(rng, [1, 0.5, 2.0])) for _ in range(int(rng.integers(1, 3)))])
+
+
 # ------------------------------------------------------------------ registry
 def build_generators():
     """(name, fn(rng) -> Val) for every typed generator."""
@@ -1396,6 +1430,8 @@ def build_generators():
     add("cliffordgate", clifford_gate, "gate")
     add("google-workflow", google_workflow)
     add("google-workflow/1", google_workflow)
+    add("google-misc", google_misc)
+    add("google-misc/1", google_misc)
     add("measurement-type", lambda rng: pick(rng, list(cirq.MeasurementType)))
     return gens
 
